@@ -74,15 +74,19 @@ class FilteringMessageLogger(BaseMessageLogger):
         return iter(self._filtered_entries)
 
     def set_filter(self, filter_str: str):
-        self.filter = compile_filter(filter_str)
-        self._begin_reset()
+        new_filter = compile_filter(filter_str)
+        # Evaluate the new filter before touching any state: match() may raise (e.g. an
+        # unknown enum name) and must not leave a new filter with the old view.
         # Keep any entries that've aged out of the raw entries list that
         # match the new filter
-        self._filtered_entries = [
+        new_entries = [
             m for m in self._filtered_entries if
-            m not in self._raw_entries and self.filter.match(m)
+            m not in self._raw_entries and new_filter.match(m)
         ]
-        self._filtered_entries.extend((m for m in self._raw_entries if self.filter.match(m)))
+        new_entries.extend((m for m in self._raw_entries if new_filter.match(m)))
+        self.filter = new_filter
+        self._begin_reset()
+        self._filtered_entries = new_entries
         self._end_reset()
 
     def set_paused(self, paused: bool):
